@@ -7,3 +7,9 @@ import NdnProofs.Props.C19
 #print axioms Ndn.C19.yielded_prefix_in_order
 #print axioms Ndn.C19.requests_bounded
 #print axioms Ndn.C19.fetch_terminates
+#print axioms Ndn.C19.segment_component_roundtrip
+#print axioms Ndn.C19.segComp_is_rep
+#print axioms Ndn.C19.final_block_id_names_segment_iff
+#print axioms Ndn.C19.fetchB_refines
+#print axioms Ndn.C19.fetchB_refines_unsegmented
+#print axioms Ndn.C19.fetch_yields_all_once_in_order_names
